@@ -621,14 +621,14 @@ fn c06_close_flow_local_established() {
     if !fin && !inhibit {
         assert!(seen.op == 2 && seen.id == id && seen.len == 5, "C06.abort.reset: an abort tells the peer with exactly one Reset of that flow");
     } else if inhibit {
-        assert!(seen == NOTHING, "C10.reset.no_reply: closing because of a peer Reset (or teardown) sends nothing -- never a Reset in reply to a Reset");
+        assert!(seen == NOTHING, "C10+C08.reset.no_reply: closing because of a peer Reset (or teardown) sends nothing -- never a Reset in reply to a Reset");
     } else {
         assert!(seen == NOTHING || (seen.op == 2 && seen.id == id), "C06.abort.after_finish: at most a Reset of this flow");
     }
     assert!(out_empty(&mut w.tx_msg_rx), "C06.abort.single: never more than one frame");
-    assert!(s.finish_sent.load(Ordering::Relaxed), "C06.abort.writes_fail: later writes fail with BrokenPipe");
+    assert!(s.finish_sent.load(Ordering::Relaxed), "C06+C08.abort.writes_fail: later writes fail with BrokenPipe");
     let mut c = cx();
-    assert!(matches!(s.poll_for_push(&mut c), Poll::Ready(0)), "C06.abort.eof: the reader gets end-of-stream");
+    assert!(matches!(s.poll_for_push(&mut c), Poll::Ready(0)), "C06+C08.abort.eof: the reader gets end-of-stream");
     core::mem::forget((s, w));
 }
 
@@ -643,11 +643,11 @@ fn c06_close_flow_local_pending_requests() {
     let (tx, mut rx) = oneshot::channel::<Option<MuxStream>>();
     w.task.close_flow_local(FlowSlot::Requested(tx), id, inhibit);
     let mut c = cx();
-    assert!(matches!(Pin::new(&mut rx).poll(&mut c), Poll::Ready(Ok(None))), "C07.rejected: a rejected / torn-down stream request resolves with None");
+    assert!(matches!(Pin::new(&mut rx).poll(&mut c), Poll::Ready(Ok(None))), "C07+C08.rejected: a rejected / torn-down stream request resolves with None");
     let (tx, mut rx) = oneshot::channel::<bool>();
     w.task.close_flow_local(FlowSlot::BindRequested(tx), id, inhibit);
-    assert!(matches!(Pin::new(&mut rx).poll(&mut c), Poll::Ready(Ok(false))), "C15.reset_is_false: Reset or teardown resolves a bind request with false");
-    assert!(out_empty(&mut w.tx_msg_rx), "C10.pending.no_frame: resolving a pending request sends nothing");
+    assert!(matches!(Pin::new(&mut rx).poll(&mut c), Poll::Ready(Ok(false))), "C15+C08.reset_is_false: Reset or teardown resolves a bind request with false");
+    assert!(out_empty(&mut w.tx_msg_rx), "C10+C08.pending.no_frame: resolving a pending request sends nothing");
     core::mem::forget(w);
 }
 
